@@ -33,12 +33,19 @@ IsFin(a) == a[2] # 0
 IsRat(a) == a \in Int \X Int /\ a[2] > 0 /\ Gcd(Abs(a[1]), a[2]) = 1
 
 \* finite arithmetic (arguments must be finite)
-Add(a, b) == Norm(a[1] * b[2] + b[1] * a[2], a[2] * b[2])
+\* addition over the least common denominator (keeps intermediates small: TLC integers are 32 bit)
+Add(a, b) == IF a[2] = b[2] THEN Norm(a[1] + b[1], a[2])
+             ELSE LET g == Gcd(a[2], b[2])
+                  IN Norm(a[1] * (b[2] \div g) + b[1] * (a[2] \div g), (a[2] \div g) * b[2])
 Neg(a) == <<-a[1], a[2]>>
 Sub(a, b) == Add(a, Neg(b))
-Mul(a, b) == Norm(a[1] * b[1], a[2] * b[2])
+\* cross-cancel before multiplying
+Mul(a, b) == IF a[1] = 0 \/ b[1] = 0 THEN <<0, 1>>
+             ELSE LET g1 == Gcd(Abs(a[1]), b[2])
+                      g2 == Gcd(Abs(b[1]), a[2])
+                  IN <<(a[1] \div g1) * (b[1] \div g2), (a[2] \div g2) * (b[2] \div g1)>>
 Inv(a) == Norm(a[2], a[1])          \* a # 0
-Div(a, b) == Norm(a[1] * b[2], a[2] * b[1])   \* b # 0
+Div(a, b) == Mul(a, Inv(b))                    \* b # 0
 RAbs(a) == <<Abs(a[1]), a[2]>>
 Lt(a, b) == a[1] * b[2] < b[1] * a[2]
 Le(a, b) == a[1] * b[2] <= b[1] * a[2]
